@@ -171,6 +171,7 @@ mut("C17-no-density-test", "C17", AB, "            w1 = np.prod([self.parameters
     "            w1 = np.prod([self.parameters[i].density(trial_params[i]) for i in range(self.numParam)])\n            if True:\n                w1 = w1 if w1 else 1e-300\n                # converting from log-scale and ensuring total population size is conserved\n                model_params = self._log_parameters(trial_params.copy())\n                par_update(model_params[self.par_order])\n                if hasattr(self,\"con_state\"): ")
 mut("C17-relaxed-acceptance", "C17", AB, "                cost = self.obj.cost()\n                if cost < tolerance:\n                    if generation == 0:", "                cost = self.obj.cost()\n                if cost < tolerance*1.25:\n                    if generation == 0:")
 mut("C17-backtransform-skipped", "C17", AB, "            params[self.log] = 10**params[self.log]", "            params[self.log] = params[self.log]")
+rev("C09-revert-D21-ordered-list-display-name", "C09", "5108640")
 rev("C18-revert-D20-fit-guard", "C18", "a143273")
 mut("C18-bounds-packing", "C18", BL, "        box_bounds = np.reshape(np.append(lb, ub), (len(lb), 2), 'F')", "        box_bounds = np.reshape(np.append(lb, ub), (len(lb), 2), 'C')")
 mut("C18-returns-start", "C18", BL, "        if full_output:\n            return res['x'], res\n        else:\n            return res['x']", "        if full_output:\n            return res['x'], res\n        else:\n            return res['x'] if res['success'] else res['x']*1.5")
